@@ -69,18 +69,25 @@ type Case struct {
 	Round     uint64       `json:"round"` // header number otherwise
 	CheckBase bool         `json:"check_base"`
 	ViaChain  bool         `json:"via_chain"` // also verify through Server.VerifyHeader on a ChainReader (look-backs resolved by the engine)
+	// (with ViaChain) every synthetic header except the stake look-backs carries the root of a DECOY validator
+	// set (same validators, stakes rotated, everybody an online senator): only the look-back blocks count
+	Decoy bool `json:"decoy"`
+	// (with ViaChain) the chain already holds a header with this hash at this height (the votes are not hashed)
+	Known bool `json:"known"`
 	Edits     []Edit       `json:"edits"`
 }
 
 var editKinds = []string{"drop", "drop", "dropsig", "dup", "reproof", "wrongblock", "wrongpayload", "addnonmember", "addnonmember",
 	"outofrange", "votes", "flip", "stealidx", "agg", "containerri", "hdrth", "hdrth", "proposer", "proposer", "trim", "trim", "trim",
-	"certhdrth", "swapstep", "atk-valth", "atk-propth", "atk-certth", "atk-outsiders"}
+	"certhdrth", "swapstep", "atk-valth", "atk-propth", "atk-certth", "atk-outsiders", "atk-decoyset"}
 
 func genCase(t *rapid.T) Case {
 	c := Case{Params: rapid.IntRange(0, 2).Draw(t, "params"), Seed: rapid.Uint8().Draw(t, "seed")}
 	c.Cert = rapid.IntRange(0, 3).Draw(t, "cert") == 0
 	c.Round = uint64(rapid.IntRange(10, 200).Draw(t, "round"))
 	c.ViaChain = rapid.Bool().Draw(t, "viachain")
+	c.Decoy = c.ViaChain && rapid.Bool().Draw(t, "decoy")
+	c.Known = c.ViaChain && rapid.IntRange(0, 2).Draw(t, "known") == 0
 	c.CheckBase = rapid.IntRange(0, 3).Draw(t, "checkbase") == 0
 	T := triples[c.Params][1]
 	if c.Cert {
@@ -202,6 +209,7 @@ type world struct {
 	cert     *voteList
 	members  []int // online chamber spec indices
 	others   []int // house / offline spec indices
+	decoy    *uk.Set
 }
 
 func (w *world) honestEntry(l *voteList, i int, ri uint32) (entry, uk.Credential) {
@@ -527,6 +535,60 @@ func (w *world) applyEdit(e Edit, hashOf func() common.Hash) string {
 			}
 		}
 		return "edit:atk-outsiders"
+	case "atk-decoyset":
+		// proposer credential and precommits of the validators as they stand at ANOTHER height (the decoy set
+		// recorded in every header but the stake look-back): ranks, stakes and the total differ
+		if w.decoy == nil {
+			return ""
+		}
+		d := w.decoy
+		found := false
+		for ri := uint32(1); ri <= 60 && !found; ri++ {
+			for i, sp := range d.Specs {
+				cr := uk.Sortition(sp.Key, w.seed, ri, stepProposal, w.trip[0], sp.Stake, d.TotalChamber)
+				if cr.J >= 1 {
+					w.proposer, w.propKey, w.propCred, w.consRI = i, sp.Key, cr, ri
+					w.subUsers, w.priority = cr.J, refPriority(cr.Value, cr.J)
+					w.propNote = "credential computed against another height's validator set"
+					found = true
+					break
+				}
+			}
+		}
+		if !found {
+			return ""
+		}
+		w.contRI = w.consRI
+		l = w.commit
+		l.entries, l.sigs = nil, nil
+		for i, sp := range d.Specs {
+			cr := uk.Sortition(sp.Key, l.seed, w.contRI, l.step, l.T, sp.Stake, d.TotalChamber)
+			if cr.J < 1 {
+				continue
+			}
+			idx := uint32(d.Index[i])
+			signer := -1
+			for j := range w.set.Specs {
+				if uint32(w.set.Index[j]) == idx {
+					signer = j
+				}
+			}
+			l.entries = append(l.entries, entry{signer: signer, voterIdx: idx, proofBy: i, proofRI: w.contRI, proofStep: l.step, proofSeed: l.seed,
+				value: cr.Value, proof: cr.Proof, votes: cr.J})
+			l.sigs = append(l.sigs, sigItem{signer: i, payload: "ok"})
+		}
+		if w.cert != nil {
+			// (the certificate look-back of round 32768 is header 0 for stake and seed alike: the honest certificate votes stay)
+			w.cert.entries, w.cert.sigs = nil, nil
+			for _, i := range w.members {
+				en, cr := w.honestEntry(w.cert, i, w.contRI)
+				if cr.J >= 1 {
+					w.cert.entries = append(w.cert.entries, en)
+					w.cert.sigs = append(w.cert.sigs, sigItem{signer: i, payload: "ok"})
+				}
+			}
+		}
+		return "edit:atk-decoyset"
 	case "proposer":
 		switch e.A % 7 {
 		case 0: // a key that is not a validator at all
@@ -641,6 +703,28 @@ func runCase(c Case) kit.Result {
 	ypc := params.Versions[version(c.Params)]
 	chain := uk.NewFakeChain(set, &ypc, w.number-1, c.Seed)
 	chain.HeaderVersion = version(c.Params)
+	if c.Decoy {
+		ds := append([]uk.ValSpec(nil), c.Vals...)
+		for i := range ds {
+			ds[i].Stake = c.Vals[(i+1)%len(c.Vals)].Stake
+			ds[i].Online = true
+			if !ds[i].IsChamber() {
+				ds[i].Role = uint8(params.RoleSenator)
+			}
+		}
+		w.decoy, err = uk.BuildSetOn(set.DB, ds)
+		if err != nil {
+			return kit.Discarded("decoy set: " + err.Error())
+		}
+		chain.DefaultRoot = &w.decoy.ValRoot
+		stakeLB := uint64(0)
+		if w.number > ypc.StakeLookBack {
+			stakeLB = w.number - ypc.StakeLookBack
+		}
+		// the only headers whose validator root header verification may use: the stake look-back, and
+		// header 0 (stake look-back of the certificate votes of round 32768)
+		chain.RootOf = map[uint64]common.Hash{stakeLB: set.ValRoot, 0: set.ValRoot}
+	}
 	w.seed = chain.SeedOf(w.number - ypc.SeedLookBack)
 	w.certSeed = chain.SeedOf(0)
 	w.hdrTh = w.trip
@@ -779,7 +863,12 @@ func runCase(c Case) kit.Result {
 		}
 		if c.ViaChain {
 			// second entry: the header-chain path. Acceptance by EITHER path is an acceptance.
+			if c.Known {
+				// the node already holds a block with this hash at this height (votes and seal are not hashed)
+				chain.Pin(w.number, types.CopyHeader(blk.Header()))
+			}
 			err2 := srv.VerifyHeader(chain, blk.Header(), true)
+			chain.Pin(w.number, nil)
 			if err2 == nil {
 				viaChainAccepts++
 				if err != nil {
@@ -867,6 +956,12 @@ func runCase(c Case) kit.Result {
 	}
 	if c.ViaChain {
 		labels = append(labels, "via-chain")
+	}
+	if c.Decoy {
+		labels = append(labels, "decoy-set-elsewhere")
+	}
+	if c.Known {
+		labels = append(labels, "hash-known-canonical")
 	}
 	if viaChainOnly {
 		labels = append(labels, "accepted-by-VerifyHeader-only")
